@@ -141,7 +141,8 @@ def check(case):
                     fails.append(Fail("result_set", f"{key}: {sorted(set(got))}", f"{sorted(want[(strat, strict)])}", key_extra=key))
         if snapshot(host) != h0 or snapshot(pat) != p0:
             fails.append(Fail("inputs_modified", "host or pattern changed", "unchanged", key_extra=cfg))
-        if fails or kind != "full":
+        if fails or kind != "full" or n_p > 2:
+            # limit settings are explored for patterns with <= 2 atoms (both tiers); larger patterns: unlimited answers only
             outcome_bits.append(str(min(len(M), 9)))
             continue
         # ---- limits (only judged when the unlimited answers are right)
